@@ -15,7 +15,7 @@ def cell(r):
     return f"{r['check']}: not at seed 1"
 
 
-for name in sorted(res, key=lambda n: (n.startswith("R2-"), n)):
+for name in sorted(res, key=lambda n: (n[:3] if n.startswith("R") else "", n)):
     meta = json.load(open(os.path.join(ROOT, "seeded", name, "meta.json")))
     own = meta["breaks_property"]
     summ = " ".join(str(meta.get("summary", "")).split())
